@@ -116,7 +116,7 @@ class Bus:
         while True:
             for i, m in enumerate(self.obs.inbox):
                 if m.mtype == SIGNAL and m.fields.get(F_MEMBER) == "NameOwnerChanged" and m.body[0] == unique and m.body[2] == "":
-                    del self.obs.inbox[:i + 1]
+                    del self.obs.inbox[i]          # only this one: other connections' signals may arrive in any order
                     return True
             if self.obs.closed or time.time() > t_end:
                 return False
@@ -173,7 +173,7 @@ def build_msg(ev, uniq, pad=0):
     return Msg(mt, flags, int(ser), f, "us" + "h" * nfds, (int(token), "payload-%s" % token + "x" * pad) + tuple(range(nfds)))
 
 
-def rule_text(f, uniq):
+def rule_text(f, uniq, extra=0):
     """f = [eavesdrop, type, sender, destination] of an M event"""
     def name(x):
         k = int(x[1:])
@@ -187,6 +187,12 @@ def rule_text(f, uniq):
         parts.append("destination='%s'" % name(f[3]))
     if f[0] == "1":
         parts.append("eavesdrop='true'")
+    elif extra % 4 == 1:
+        parts.append("interface='org.freedesktop.DBus'")      # plain rules never match unicast traffic, whatever their keys
+    elif extra % 4 == 2:
+        parts.append("member='RequestName'")
+    elif extra % 4 == 3:
+        parts.append("path='/org/freedesktop/DBus'")
     return ",".join(parts)
 
 
@@ -217,6 +223,7 @@ def run_history(bus, events, pipeline=False):
     conns, uniq, by_unique = {}, {}, {}
     blocked = set()
     stopped, hung = False, []
+    drv_zero = set()          # (connection, serial) of G events: the content of the driver's answer is not routing's business
     sent = {}
     nextid = 0
     toks = []
@@ -245,7 +252,11 @@ def run_history(bus, events, pipeline=False):
                 s = m.fields.get(F_SENDER)
                 # a connection holding an eavesdrop rule also sees traffic to and from the bus driver (the harness's own
                 # round trips, other clients' RequestName calls and the driver's answers to them): not unicast routing
-                if m.fields.get(F_DESTINATION) == BUS or m.serial >= HIGH and s != BUS or m.fields.get(F_INTERFACE) == "t.Fill":
+                if m.serial >= HIGH and s != BUS or m.fields.get(F_INTERFACE) == "t.Fill":
+                    continue            # the harness's own round trips / fillers, as seen by an eavesdropper
+                if m.fields.get(F_DESTINATION) == BUS:
+                    # a copy of another client's (or the own) method call to the bus driver
+                    mine.append("C.%s.%d" % (by_unique.get(s, "?"), m.serial))
                     continue
                 if s == BUS and m.fields.get(F_DESTINATION) not in (None, c.unique):
                     continue
@@ -257,7 +268,7 @@ def run_history(bus, events, pipeline=False):
                         en = m.fields.get(F_ERROR_NAME, "?")
                         mine.append("E.%s.%d" % (en[len(ERRP):] if en.startswith(ERRP) else en, rs))
                     elif rs < HIGH:
-                        mine.append("D.%d.%s" % (rs, m.body[0] if m.body else "0"))
+                        mine.append("D.%d.%s" % (rs, "0" if (k, rs) in drv_zero or not m.body else m.body[0]))
                 else:
                     notes["forwarded"] += 1
                     tok = m.body[0] if m.sig.startswith("u") and m.body else "?"
@@ -457,19 +468,34 @@ def run_history(bus, events, pipeline=False):
                 blocked.discard(k)
                 toks.append(collect())
                 nominal += (time.time() - t0) * 1000.0
+            elif f[0] == "G":
+                k = int(f[1])
+                if k not in conns or k in blocked:
+                    toks.append("!")
+                    continue
+                ser = int(f[2])
+                drv_zero.add((k, ser))
+                if ser % 2:
+                    m = Msg(METHOD_CALL, 0, ser, {F_PATH: "/org/freedesktop/DBus", F_INTERFACE: BUS, F_MEMBER: "GetId", F_DESTINATION: BUS})
+                else:
+                    m = Msg(METHOD_CALL, 0, ser, {F_PATH: "/org/freedesktop/DBus", F_INTERFACE: BUS, F_MEMBER: "NameHasOwner", F_DESTINATION: BUS},
+                            "s", (wk_name(ser % 3),))
+                conns[k].send(m)
+                toks.append(collect())
             elif f[0] == "M":
                 k = int(f[1])
                 if k not in conns or k in blocked:
                     toks.append("!")
                     continue
                 conns[k].send(Msg(METHOD_CALL, 0, int(f[2]), {F_PATH: "/org/freedesktop/DBus", F_INTERFACE: BUS, F_MEMBER: "AddMatch",
-                                                              F_DESTINATION: BUS}, "s", (rule_text(f[3:], uniq),)))
+                                                              F_DESTINATION: BUS}, "s", (rule_text(f[3:], uniq, int(f[2])),)))
                 toks.append(collect())
             elif f[0] in ("R", "L"):
                 k = int(f[1])
                 if k not in conns or k in blocked:
                     toks.append("!")
                     continue
+                drv_zero.discard((k, int(f[2])))
                 if f[0] == "R":
                     fl = int(f[4])
                     m = Msg(METHOD_CALL, 0, int(f[2]), {F_PATH: "/org/freedesktop/DBus", F_INTERFACE: BUS, F_MEMBER: "RequestName",
